@@ -27,7 +27,11 @@ class Prop(GraphProp):
     profile = {}
 
     def generate(self, r, tier, idx):
-        w = self.gen_world(r, tier, self.profile)
+        profile = self.profile
+        if r.random() < 0.06:
+            # focus: sparse worlds whose terms mix dense and sparse arrays, with full / selective diagonalisation
+            profile = {**self.profile, "domains": ["sparse"], "force_mixed_fd": True}
+        w = self.gen_world(r, tier, profile)
         ops = self.gen_ops(r, w, tier, self.profile)
         return {"world": w, "ops": ops, "faults": []}
 
